@@ -25,7 +25,7 @@ def uniq():
 
 VERIF = os.path.dirname(os.path.dirname(os.path.abspath(__file__)))
 COQ = os.path.join(VERIF, "coq")
-BUILD = os.path.join(VERIF, ".build")
+BUILD = os.environ.get("KV_BUILD") or os.path.join(VERIF, ".build")   # KV_BUILD: separate build dir for scratch-tree runs
 OCAML_BUILD = os.path.join(BUILD, "ocaml")
 TARGET = os.path.join(BUILD, "target")
 HARNESS = os.path.join(VERIF, "harness")
@@ -343,11 +343,32 @@ def invalidate_if_repo_changed():
             f.write(d)
 
 
-def ensure_harness(release=False, crate=HARNESS, timeout=1500):
+def harness_crate():
+    """the crate cargo builds: BUILD/harness = generated Cargo.toml (konst by path through the
+    repolink of THIS build dir) + a link to harness/src"""
+    d = os.path.join(BUILD, "harness")
+    os.makedirs(d, exist_ok=True)
+    toml = open(os.path.join(HARNESS, "Cargo.toml")).read().replace('"../.build/repolink/konst"', '"%s/konst"' % REPO_LINK)
+    tp = os.path.join(d, "Cargo.toml")
+    if not os.path.exists(tp) or open(tp).read() != toml:
+        open(tp, "w").write(toml)
+    src = os.path.join(d, "src")
+    if not os.path.islink(src):
+        os.symlink(os.path.join(HARNESS, "src"), src)
+    cc = os.path.join(d, ".cargo")
+    os.makedirs(cc, exist_ok=True)
+    cfgp = os.path.join(cc, "config.toml")
+    if not os.path.exists(cfgp):
+        open(cfgp, "w").write("[net]\noffline = true\n")
+    return d
+
+
+def ensure_harness(release=False, crate=None, timeout=1500):
     """(re)build the harness against /repo's working tree."""
     with Lock("cargo.lock"):
         link_repo()
         invalidate_if_repo_changed()
+        crate = crate or harness_crate()
         lock_src = os.path.join(REPO, "Cargo.lock")
         lock_dst = os.path.join(crate, "Cargo.lock")
         if os.path.exists(lock_src) and not os.path.exists(lock_dst):
@@ -406,7 +427,7 @@ def produce_lines_miri(group, seed, timeout=3000):
         with open(out_path, "w") as f:
             try:
                 p = subprocess.run(["cargo", "+nightly", "miri", "run", "--offline", "-q", "--", group, "miri", str(seed)],
-                                   cwd=HARNESS, stdout=f, stderr=subprocess.PIPE, env=env, timeout=timeout)
+                                   cwd=harness_crate(), stdout=f, stderr=subprocess.PIPE, env=env, timeout=timeout)
             except subprocess.TimeoutExpired:
                 return None, "miri run timed out"
     if p.returncode != 0:
